@@ -146,6 +146,16 @@ def rule_W3(F, R):
                 R.ok("W3", "pending operations = unsynced_operations().filter_map(SyncOp::from_op)", where(x.b, d[1]))
 
 
+def _is_none(F, v):
+    """the literal None, or a named constant that evaluates to None"""
+    if v == ("A", "std::option::Option", "None", ()):
+        return True
+    if v and v[0] == "K" and isinstance(v[1], str):
+        c = F.consts.get(v[1])
+        return bool(c and c.get("ty", "").startswith("std::option::Option<") and (c.get("val") or "").endswith("::None"))
+    return False
+
+
 def rule_W4(F, R):
     R.begin("W4", "conversion tables: from_op maps fields by name (value <- value, never old_value), UndoPoint -> None; into_op sets old_value = None / old_task = empty")
     b = F.bodies.get(SYNCOP + "::from_op")
@@ -195,7 +205,7 @@ def rule_W4(F, R):
                 ot = f.get("old_task", ("?",))
                 ok = f.get("uuid") == ("F", sp, k, "uuid") and ot[0] == "C" and ot[2].endswith("::new") and not ot[3]
             elif k == "Update":
-                ok = all(f.get(n) == ("F", sp, k, n) for n in ("uuid", "property", "value", "timestamp")) and f.get("old_value") == ("A", "std::option::Option", "None", ())
+                ok = all(f.get(n) == ("F", sp, k, n) for n in ("uuid", "property", "value", "timestamp")) and _is_none(F, f.get("old_value"))
         if ok:
             R.ok("W4", "into_op %s -> %s" % (k, show(r)[:100]), where(b))
         else:
